@@ -945,6 +945,14 @@ pagesFind(Length npages)
 	return (i == -1) ? 0 : pgAt(i);
 }
 
+/*
+ * True while the allocator is obtaining pages for its own structures (free
+ * tree nodes and list headers).  Such a request is made in the middle of an
+ * update of the free tree, so it must not start a collection: the sweep would
+ * update the same tree underneath the interrupted operation.
+ */
+static Bool	stoInnerPages = false;
+
 local Page *
 pagesGet(Length nMin)
 {
@@ -958,7 +966,7 @@ pagesGet(Length nMin)
 		if (nMin > 0) pgmapMod(p,   1,      PgBusyFirst);
 		if (nMin > 1) pgmapMod(p+1, nMin-1, PgBusyFollow);
 	}
-	else if (gcLevel == StoCtl_GcLevel_Automatic) {
+	else if (gcLevel == StoCtl_GcLevel_Automatic && !stoInnerPages) {
 		int	tot, free0, free1;
 		int	gceLhs, gceRhs;
 
@@ -1308,7 +1316,9 @@ stoAllocInner(ULong nbytes, PgKind pgkind)
 #ifdef ALDOR_VERIF
 	stoVerifProbe[12]++;
 #endif
+	stoInnerPages = true;
 	pages = pagesGet(npages);
+	stoInnerPages = false;
 
 	if (pages == 0) {
 #ifdef STO_LONGJMP
